@@ -6,6 +6,7 @@ import Proofs.Containers
 import Proofs.Aligned
 import Proofs.BackGlobal
 import Proofs.Counted
+import Properties.C09
 /-! driver command `J {"op":"sched", …}`: run the scheduler model on one scenario projection -/
 namespace SPD
 open SP Lean
@@ -196,7 +197,24 @@ def runSched (j : Json) : Json :=
               ("tasks", Json.arr tasks.toArray), ("ledger", Json.arr led.toArray), ("counters", Json.arr cnt.toArray),
               ("warnings", Json.arr (σ.warnings.map Json.str).toArray)]
 
-def jsonOps : List (String × (Json → Json)) := [("sched", runSched)]
+/-- C09: the base project and the project with one more task; are the hypotheses of
+    `C09.lowest_priority_intruder_harmless_checked` met, and does its conclusion evaluate to true on the two model runs? -/
+def runIntruder (j : Json) : Json :=
+  let e := (elaborate (parseProj (j.getObjValD "base"))).env
+  let e' := (elaborate (parseProj (j.getObjValD "plus"))).env
+  let n := e.tasks.size
+  let zd := e'.taskD n
+  -- the environment of the extended project is `ext e zd` (first-order fields; calendars come from identical resource sections)
+  let isExt := e'.tasks == e.tasks.push zd && e'.limits == e.limits && e'.res == e.res && e'.G == e.G && e'.start == e.start &&
+    e'.stop == e.stop && e'.size == e.size && e'.projAlap == e.projAlap
+  let applies := isExt && C09.intrCheck e zd && treeCheck e && wfCheck e
+  let σ := runScenario e
+  let σ' := runScenario e'
+  let agree := (List.range n).all (fun t => σ'.tst t == σ.tst t)
+  Json.mkObj [("is_ext", Json.bool isExt), ("applies", Json.bool applies), ("agree", Json.bool agree),
+              ("added_scheduled", Json.bool (σ'.tst n).scheduled)]
+
+def jsonOps : List (String × (Json → Json)) := [("sched", runSched), ("intruder", runIntruder)]
 
 def handleJson (ops : List (String × (Json → Json))) (line : String) : String :=
   match Json.parse line with
